@@ -293,7 +293,7 @@ func HBuildResets() {
 	c, _, _, _ := vPrior(2)
 	c.Reset()
 	vr.Assert("c19.reset.payloads", len(c) == 0)
-	sa := vGenSA(-1)
+	sa := vGenSA(-1, 0)
 	sa.Proposals[0].EncryptionAlgorithm.Reset()
 	vr.Assert("c19.reset.transforms", len(sa.Proposals[0].EncryptionAlgorithm) == 0)
 	sa.Proposals.Reset()
